@@ -10,7 +10,16 @@ name=$1; patch=$(readlink -f "$2"); shift 2
 root=/tmp/mt/$name
 T=${MT_TARGET:-/tmp/mt/target}
 rm -rf "$root"; mkdir -p "$root/out/work" $T
-git -C /repo worktree add --detach -q "$root/repo" HEAD || exit 2
+# the patch is applied to HEAD; a patch that was written against an earlier commit and no longer
+# applies (a later fix: commit touched the same lines) is applied to its recorded base commit
+# (MT_BASE, or base_commit in the meta.json next to the patch) -- the checks then also see
+# whatever that fix repaired
+base=HEAD
+if ! git -C /repo apply --check "$patch" 2>/dev/null; then
+  b=${MT_BASE:-$(python3 -c "import json,sys,os;print(json.load(open(os.path.join(os.path.dirname(sys.argv[1]),'meta.json'))).get('base_commit',''))" "$patch" 2>/dev/null)}
+  [ -n "$b" ] && { base=$b; echo "$name (patch does not apply to HEAD; using its base commit $b)"; }
+fi
+git -C /repo worktree add --detach -q "$root/repo" $base || exit 2
 cp /repo/Cargo.lock "$root/repo/Cargo.lock" 2>/dev/null
 ( cd "$root/repo" && git apply "$patch" ) || { echo "$name PATCH-DOES-NOT-APPLY"; git -C /repo worktree remove --force "$root/repo"; exit 2; }
 export CARGO_NET_OFFLINE=true CARGO_TERM_COLOR=never
